@@ -107,7 +107,7 @@ func hasGlobalVarAssignInInitFunc(pass *analysishelper.EnhancedPass, spec *ast.V
 		ast.Inspect(initFuncDecl.Body, func(node ast.Node) bool {
 			if assign, ok := node.(*ast.AssignStmt); ok {
 				for _, lhs := range assign.Lhs {
-					if ident, ok := lhs.(*ast.Ident); ok {
+					if ident, ok := ast.Unparen(lhs).(*ast.Ident); ok {
 						obj := pass.TypesInfo.ObjectOf(ident)
 						if _, exists := assignedVars[obj]; exists {
 							assignedVars[obj] = true
